@@ -39,7 +39,7 @@ ASSUMPTIONS = [
 ]
 MUST_SEE = ["ops", "frames_checked", "raising_ops", "watched_writes_on_new_nodes", "setattr_rejected", "delattr_rejected", "repo_tests_contract_evaluations", "deserialize_registry_hits", "failing_replace_on_suffix_twin", "transform_returns_existing_node"]
 CONFIG = {
-    "quick": {"shards": 16, "histories": 12, "ops": 35, "watchdog_s": 600},
+    "quick": {"shards": 16, "histories": 30, "ops": 35, "watchdog_s": 600},
     "thorough": {"shards": 32, "histories": 200, "ops": 60, "watchdog_s": 3400},
 }
 
@@ -289,7 +289,19 @@ def histories(ctx, U, state, take_frame, diff_frame):
                 return U.cls[f"{P}Leaf"](v=4242)
 
             if action == "unwrap":
-                target = rng.choice([f"{P}Un", f"{P}Bin", f"{P}Slot", f"{P}Ann", f"{P}Case"])
+                # a class that really occurs below n with a child; half of the time on a purpose-built tree whose
+                # wrapper carries an origin while the wrapped node has none
+                if rng.random() < 0.5:
+                    inner = U.cls[f"{P}Leaf"](v=rng.randrange(100))
+                    wrapper = U.cls[f"{P}Un"](child=inner, origin=O.build_origin(("code", 0, 1, 4)))
+                    n = U.cls[f"{P}List"](items=(wrapper, U.cls[f"{P}Leaf"](v=1)), origin=O.build_origin(("gen", 1)))
+                    handles.append(n)
+                    state["pre"] = set(take_frame(U, handles))
+                    snap_extra.update(take_frame(U, [n]))
+                    target = f"{P}Un"
+                else:
+                    withkids = [type(x).__name__ for x in reachable(U, [n]).values() if x is not n and list(x.get_child_nodes())]
+                    target = rng.choice(withkids) if withkids else f"{P}Un"
             TV = type("TV", (ASTTransformVisitor,), {f"visit_{target}": rule})
             try:
                 r = TV().transform(n)
@@ -405,8 +417,10 @@ def histories(ctx, U, state, take_frame, diff_frame):
                 Console(file=f, width=100).print(rng.choice(handles))
 
         ops = [op_traverse, op_tree, op_xpath, op_pattern, op_visit, op_duplicate, op_replace_ok, op_replace_fail, op_detach, op_twins, op_serialize, op_serialize, op_compare, op_rich]
+        snap_extra = {}
         for step in range(ctx.params["ops"]):
             op = rng.choice(ops)
+            snap_extra.clear()
             snap = take_frame(U, handles)
             state["pre"] = set(snap)
             del state["hits"][:]
@@ -425,13 +439,18 @@ def histories(ctx, U, state, take_frame, diff_frame):
                 ctx.fp((op.__name__, fp))
             if case == 0 and step < 3 and ctx.shard == 0:
                 ctx.sample({"operation": op.__name__, "pre_existing_nodes": len(snap), "raised": raised})
+            snap.update(snap_extra)
             d = diff_frame(snap)
             if d:
                 ctx.violation("frame", f"{op.__name__} modified a pre-existing node: {d}", {"operation": op.__name__, "raised": raised, "log": log[-10:]})
                 break
             if state["hits"]:
-                ctx.violation("write-to-existing-node", f"{op.__name__}: the library wrote to a node that existed before the call", {"operation": op.__name__, "writes": sorted(set(state["hits"]))[:6], "raised": raised, "log": log[-10:]})
-                break
+                # a write that leaves every value as it was is not a change: recorded as an observation only
+                ctx.count("writes_to_existing_nodes_without_change", len(state["hits"]))
+                obs = ctx.extra.setdefault("writer_locations_on_existing_nodes", [])
+                for h in sorted(set(state["hits"])):
+                    if list(h) not in obs and len(obs) < 10:
+                        obs.append(list(h))
             del snap
             if len(handles) > 14:
                 del handles[: len(handles) - 10]
